@@ -65,6 +65,8 @@ def obj_binary(name):
         return lambda x: onemax(x) + 1e12
     if name == "offset6":  # integer-valued, differences of 1 in 1e6 (within numpy.isclose's default tolerance)
         return lambda x: onemax(x) + 1e6
+    if name == "int":     # an INTEGER array, as numpy's sum over a bit string gives by default
+        return lambda x: np.sum(np.asarray(x).astype(np.int64), axis=1)
     if name == "view":    # returns a VIEW of its argument (the first locus): the caller's array must not be written to
         return lambda x: x[:, 0] if isinstance(x, np.ndarray) else np.asarray(x)[:, 0]
     if name == "zero":    # the best value is exactly 0 (an error count that reaches 0), reached early and easily lost again
@@ -141,6 +143,8 @@ def obj_tree(name):
         return lambda trees: size(trees) + 1e12
     if name == "offset6":
         return lambda trees: size(trees) + 1e6
+    if name == "int":     # an INTEGER array (a count)
+        return lambda trees: np.array([len(t) for t in trees], dtype=np.int64)
     if name == "zero":
         return lambda trees: -np.abs(size(trees) - 5.0)
     if name == "fail_hi":
@@ -198,7 +202,7 @@ class Recorder:
     # wrappers -----------------------------------------------------------
     def wrap_fitness(self, f):
         def wrapped(ph, **kw):
-            vals = np.asarray(f(ph), dtype=np.float64)
+            vals = np.asarray(f(ph), dtype=np.int64 if self.cfg.get("objective") == "int" else np.float64)   # "int": the library gets an integer array
             self.batch_sizes.append(len(ph))
             pk = [self.pids.id(p) for p in ph]
             for p, v in zip(pk, vals):
